@@ -166,6 +166,8 @@ class Ed25519Key(PKey):
             key_data = message.get_binary()
             # The second half of the key data is yet another copy of the public
             # key...
+            if len(key_data) != 64:
+                raise SSHException("Invalid key")
             signing_key = nacl.signing.SigningKey(key_data[:32])
             # Verify that all the public keys are the same...
             if not (
